@@ -139,6 +139,11 @@ def whitelist : List (String × String) := [
   -- a copy made two lines above.  Neither changes a value, neither reaches a caller's array
   ("interval_set:IntervalSet.__init__", "self.values"),
   ("time_index:TsIndex.__new__", "obj"),
+  -- the key array of a TsGroup (`np.sort(keys)`: a fresh array) and the row-label / column-name arrays of an IntervalSet (`np.arange`, `np.array([...])`)
+  -- are frozen on the line after they are created (`fix:` of `g.index[0] = 99`)
+  ("ts_group:TsGroup.__init__", "self.index"),
+  ("interval_set:IntervalSet.__init__", "self.index"),
+  ("interval_set:IntervalSet.__init__", "self.columns"),
   ("ts_group:TsGroup.__init__", "self.__dict__"),
   -- `data` is rebound to a new dict (`dict(enumerate(data))` / `{keys[j]: data[k] …}`) before the write
   ("ts_group:TsGroup.__init__", "data"),
